@@ -10,13 +10,13 @@ import (
 
 // symHash is a hash.Hash whose digest is an arbitrary 8-byte string that does not depend
 // on the input: the weakest possible hash function (every value collides).
-type symHash struct{ sum []byte }
+type zzvSymHash struct{ sum []byte }
 
-func (h *symHash) Write(p []byte) (int, error) { return len(p), nil }
-func (h *symHash) Sum(b []byte) []byte         { return append(b, h.sum...) }
-func (h *symHash) Reset()                      {}
-func (h *symHash) Size() int                   { return len(h.sum) }
-func (h *symHash) BlockSize() int              { return 1 }
+func (h *zzvSymHash) Write(p []byte) (int, error) { return len(p), nil }
+func (h *zzvSymHash) Sum(b []byte) []byte         { return append(b, h.sum...) }
+func (h *zzvSymHash) Reset()                      {}
+func (h *zzvSymHash) Size() int                   { return len(h.sum) }
+func (h *zzvSymHash) BlockSize() int              { return 1 }
 
 // CreateID for an arbitrary digest, every minimum length and every collision count within
 // the bound: never panics, has the documented length, and two different collision counts
@@ -25,7 +25,7 @@ func (h *symHash) BlockSize() int              { return 1 }
 func VerifHarness_C16_CreateID() {
 	sum := zz.NondetBytes("digest", 8)
 	minLen := zz.NondetRange("minLen", 1, 8)
-	h, err := NewHasherWithOptions(HashOptions{NewHash: func() hash.Hash { return &symHash{sum: sum} }, MinLength: minLen})
+	h, err := NewHasherWithOptions(HashOptions{NewHash: func() hash.Hash { return &zzvSymHash{sum: sum} }, MinLength: minLen})
 	zz.Assert(err == nil, "C16 a minimum length within the digest is accepted")
 	max := zz.Bound("collisions", 300)
 	c1 := zz.NondetRange("c1", 0, max)
